@@ -395,9 +395,15 @@ impl<'a, R: RealNumberInternalTrait> Interpreter<'a, R> {
             Primitive::String(string) => Value::String(string.clone()),
             Primitive::Boolean(value) => Value::Boolean(*value),
             Primitive::Integer(value) => Value::Number(Number::Integer(*value)),
-            Primitive::Real(number_literal) => Value::Number(Number::Real(
-                R::from(number_literal.parse::<f64>().unwrap()).unwrap(),
-            )),
+            Primitive::Real(number_literal) => match number_literal.parse::<f64>() {
+                Ok(number) => Value::Number(Number::Real(R::from(number).unwrap())),
+                Err(_) => {
+                    return error!(SyntaxError::ExpectSomething(
+                        "real number".to_string(),
+                        number_literal.clone()
+                    ))
+                }
+            },
             // TODO: apply gcd here.
             Primitive::Rational(a, b) => Value::Number(Number::from_ratio(*a as i64, *b as i64)),
         })
